@@ -187,7 +187,7 @@ class Ctx:
              "VERIF_REPLAY": self.replay_in or ""}
         if env:
             e.update({k: str(v) for k, v in env.items()})
-        args = ["test", "-tags", tags, "-vet=off", "-count=1", "-timeout", "%ds" % timeout,
+        args = ["test", "-trimpath", "-tags", tags, "-vet=off", "-count=1", "-timeout", "%ds" % timeout,
                 "-run", "^%s$" % run]
         if race:
             args.append("-race")
